@@ -149,6 +149,11 @@ private:
 
                 if( isdigit( ch ))
                 {
+                    if( k >= sizeof( _text_buffer ) - 1 )
+                    {
+                        io_error( "Number too long in pnm file." );
+                    }
+
                     _text_buffer[ k++ ] = static_cast< char >( ch );
                 }
                 else if( k )
